@@ -1054,6 +1054,66 @@ func (e *Engine) model(st *state, fr *frame, in ssa.CallInstruction, fn *ssa.Fun
 		}
 		return one(st, nil), true
 	}
+	// sync.Once: the function has completed, here or in whichever goroutine came first, when Do returns. Its effects are
+	// analysed (its panic sites and stores are effects this call may have) but not assumed: what it stores is read back
+	// from memory as what the variable holds, not as this path's own fresh value.
+	if name == "(*sync.Once).Do" && len(args) == 2 {
+		var body *ssa.Function
+		var free []*Val
+		switch args[1].Op {
+		case "func":
+			body, _ = args[1].Aux.(*ssa.Function)
+		case "closure":
+			body, _ = args[1].Aux.(*ssa.Function)
+			free = args[1].Args
+		}
+		ev := e.addEvent(st, fr, &Event{Kind: EvAtomic, Mode: "Once.Do", Recv: args[0], Callee: body}, in)
+		if body != nil && body.Blocks != nil && e.P.InModule(body) && len(body.Params) == 0 {
+			sub := st.clone()
+			sub.events = nil
+			base := len(sub.conds)
+			for _, r := range e.callFunc(sub, fr, in, body, nil, free) {
+				arm := &Arm{Events: r.st.events}
+				if len(r.st.conds) > base {
+					arm.Conds = r.st.conds[base:]
+				}
+				ev.Iter = append(ev.Iter, arm)
+				if r.panicked {
+					e.addEvent(st, fr, &Event{Kind: EvPanicSite, Mode: "panic", Args: []*Val{args[1]}}, in)
+				}
+			}
+		} else {
+			e.addEvent(st, fr, &Event{Kind: EvCall, Mode: "once:unknown-body", Args: args[1:]}, in)
+		}
+		return one(st, nil), true
+	}
+	// sync/atomic.Pointer[T]: one shared word, read and replaced as a whole
+	if strings.HasPrefix(name, "(*sync/atomic.Pointer[") && len(args) >= 1 {
+		m := name[strings.LastIndex(name, ".")+1:]
+		switch m {
+		case "Load":
+			ev := e.addEvent(st, fr, &Event{Kind: EvAtomic, Mode: m, Recv: args[0]}, in)
+			return one(st, &Val{Op: "atomicload", ID: ev.ID, Args: []*Val{args[0]}, Type: fn.Signature.Results().At(0).Type()}), true
+		case "Store":
+			if len(args) == 2 {
+				e.addEvent(st, fr, &Event{Kind: EvAtomic, Mode: m, Recv: args[0], Src: args[1]}, in)
+				e.escapeCheck(st, fr, in, "atomic store", args[1:])
+				return one(st, nil), true
+			}
+		case "Swap":
+			if len(args) == 2 {
+				ev := e.addEvent(st, fr, &Event{Kind: EvAtomic, Mode: m, Recv: args[0], Src: args[1]}, in)
+				e.escapeCheck(st, fr, in, "atomic swap", args[1:])
+				return one(st, &Val{Op: "atomicload", ID: ev.ID, Args: []*Val{args[0]}, Type: fn.Signature.Results().At(0).Type()}), true
+			}
+		case "CompareAndSwap":
+			if len(args) == 3 {
+				ev := e.addEvent(st, fr, &Event{Kind: EvAtomic, Mode: m, Recv: args[0], Src: args[2], Args: []*Val{args[1]}}, in)
+				e.escapeCheck(st, fr, in, "atomic compare-and-swap", args[2:])
+				return one(st, &Val{Op: "unknown", ID: ev.ID, Name: m, Type: types.Typ[types.Bool]}), true
+			}
+		}
+	}
 	// ByteOrder methods
 	if strings.HasPrefix(name, "(encoding/binary.bigEndian).") || strings.HasPrefix(name, "(encoding/binary.littleEndian).") {
 		ord := "BE"
